@@ -139,7 +139,7 @@ class C14(Lab):
         "the DriverStation simulator provides the FMS flag; the chooser is read through NetworkTables after SmartDashboard.updateValues()",
         "a start() without a preceding disable() is generated; there only 'no other mode gets a callback' and 'nothing after on_disable' are judged for the old mode",
     )
-    budgets = {"quick": 600, "thorough": 40000}
+    budgets = {"quick": 1200, "thorough": 40000}
     time_budget = {"quick": 80, "thorough": 1500}
 
     def setup(self):
